@@ -89,3 +89,170 @@ Example C06_string_prefix_refuted :
   r_status (run (f26_cfg fixed false) f26_plan [] f26_fs) = 1%Z /\
   r_calls (run (f26_cfg fixed false) f26_plan [] f26_fs) = [].
 Proof. vm_compute. repeat split. Qed.
+
+(* ---------- the kernel's resolution agrees with Path.resolve() ------------------------------------------ *)
+From Tempren Require Import FS.RealpathAgree Pipe.Confined.
+
+(* whenever the kernel walk of a path succeeds completely (every link followed, ".." taken of the real
+   directory reached so far), posixpath._joinrealpath returns the same real path with ok = True, for every
+   fuel larger than the one the walk needed; no hypothesis on the tree *)
+Theorem C06_walk_realpath_agree : forall s f cur comps p n f',
+  walk f s cur comps true = WFound p n -> (f < f')%nat ->
+  joinreal f' s cur comps [] = (p, true).
+Proof. exact walk_realpath_agree. Qed.
+Print Assumptions C06_walk_realpath_agree.
+
+(* ... and when only the last component is missing (a destination that does not exist yet) *)
+Theorem C06_walk_realpath_agree_missing : forall s f cur comps par nm f',
+  walk f s cur comps false = WMissing par nm -> (S f < f')%nat ->
+  joinreal f' s cur comps [] = (par ++ [nm], true).
+Proof. exact walk_realpath_agree_missing. Qed.
+Print Assumptions C06_walk_realpath_agree_missing.
+
+(* with the concrete fuels of the model (walk: 120, realpath: 400) *)
+Theorem C06_resolve_found_realpath_raw : forall s cwd p q n,
+  resolve s cwd p true = WFound q n -> realpath_raw s cwd p = q.
+Proof. exact resolve_found_realpath_raw. Qed.
+Print Assumptions C06_resolve_found_realpath_raw.
+
+Theorem C06_rename_destination_is_where_realpath_says : forall s cwd dst dpar dname,
+  resolve s cwd dst false = WMissing dpar dname -> realpath_raw s cwd dst = dpar ++ [dname].
+Proof. exact rename_destination_is_where_realpath_says. Qed.
+Print Assumptions C06_rename_destination_is_where_realpath_says.
+
+(* rename(2) onto a free name and mkdir(2) key the new entry by realpath of the path they were given *)
+Theorem C06_rename_creates_at_realpath : forall s cwd src dst dpar dname s',
+  resolve s cwd dst false = WMissing dpar dname -> os_rename s cwd src dst = SOk s' ->
+  exists sp sn, resolve s cwd src false = WFound sp sn /\ s' = rekey sp (realpath_raw s cwd dst) s.
+Proof. exact rename_creates_at_realpath. Qed.
+Print Assumptions C06_rename_creates_at_realpath.
+
+Theorem C06_mkdir_creates_at_realpath : forall s cwd p s',
+  os_mkdir s cwd p = SOk s' -> s' = s ++ [(realpath_raw s cwd p, NDir)].
+Proof. exact mkdir_creates_at_realpath. Qed.
+Print Assumptions C06_mkdir_creates_at_realpath.
+
+(* the containment test (on input_directory / generated path, resolved by Path.resolve()) speaks about the
+   very key that rename(2), called from inside the input directory with the unresolved path, will create *)
+Theorem C06_contained_destination_key_inside : forall s f np dpar dname,
+  chdir s (pf_dir f) = Some (pf_dir f) ->
+  contained fixed s f np = Some true ->
+  resolve s (pf_dir f) (to_upath np) false = WMissing dpar dname ->
+  is_prefix_path (pf_dir f) (dpar ++ [dname]) = true.
+Proof. exact contained_destination_key_inside. Qed.
+Print Assumptions C06_contained_destination_key_inside.
+
+(* one rename step: every key of the tree that appears or disappears lies at or below the input directory *)
+Theorem C06_confined_step : forall s f np s' dpar dname,
+  chdir s (pf_dir f) = Some (pf_dir f) ->
+  contained fixed s f np = Some true ->
+  plain_source s f ->
+  resolve s (pf_dir f) (to_upath np) false = WMissing dpar dname ->
+  os_rename s (pf_dir f) (to_upath (pf_rel f)) (to_upath np) = SOk s' ->
+  is_prefix_path (pf_dir f) (dpar ++ [dname]) = true /\
+  (exists sn, resolve s (pf_dir f) (to_upath (pf_rel f)) false = WFound (pf_dir f ++ pp_parts (pf_rel f)) sn /\
+              s' = rekey (pf_dir f ++ pp_parts (pf_rel f)) (dpar ++ [dname]) s) /\
+  (forall k n, In (k, n) s' -> ~ In (k, n) s -> is_prefix_path (pf_dir f) k = true) /\
+  (forall k n, In (k, n) s -> ~ In (k, n) s' -> is_prefix_path (pf_dir f) k = true).
+Proof. exact confined_step. Qed.
+Print Assumptions C06_confined_step.
+
+(* the renamer as first_pass calls it once both containment tests said yes (C06_renamer_reached_only_inside):
+   name/directory mode, and every mode under dry-run; whatever the outcome of the call *)
+Theorem C06_confined_renamer_step : forall c w f np w' e,
+  c_var c = fixed -> (c_dry c = true \/ c_mode c <> MPath) ->
+  chdir (w_fs w) (pf_dir f) = Some (pf_dir f) ->
+  contained (c_var c) (w_fs w) f np = Some true ->
+  plain_source (w_fs w) f ->
+  renamer c w (pf_dir f) (pf_rel f) np false = (w', e) ->
+  changes_below (pf_dir f) (w_fs w) (w_fs w').
+Proof. exact confined_renamer_step. Qed.
+Print Assumptions C06_confined_renamer_step.
+
+(* non-vacuity: "lnk/../x" through a symlinked directory — the kernel and realpath both take ".." of the real
+   directory; and a tree on which every hypothesis of C06_confined_step holds *)
+Example C06_agreement_example :
+  resolve agree_fs [[105;110]] {| up_abs := false; up_comps := [[108;110;107]; dotdot; [120]] |} false
+    = WMissing [[111;117;116]] [120] /\
+  realpath_raw agree_fs [[105;110]] {| up_abs := false; up_comps := [[108;110;107]; dotdot; [120]] |}
+    = [[111;117;116]; [120]] /\
+  resolve agree_fs [[105;110]] {| up_abs := false; up_comps := [[114;101;108]; dotdot; [114;101;108]; [97]] |} true
+    = WFound [[105;110]; [115;117;98]; [97]] (NFile 1) /\
+  realpath_raw agree_fs [[105;110]] {| up_abs := false; up_comps := [[114;101;108]; dotdot; [114;101;108]; [97]] |}
+    = [[105;110]; [115;117;98]; [97]].
+Proof. exact agree_dotdot_after_link. Qed.
+
+(* ---------- path mode: mkdir -p of the parent, then shutil.move ------------------------------------------- *)
+From Tempren Require Import FS.DirExt Pipe.ConfinedMove.
+
+(* creating plain directories at names that were missing changes neither realpath nor what a successful
+   kernel walk finds; mkdir(2) is such a change *)
+Theorem C06_realpath_unchanged_by_new_directories : forall s s1 cwd p,
+  dir_ext s s1 -> realpath_raw s1 cwd p = realpath_raw s cwd p.
+Proof. exact realpath_raw_dir_ext. Qed.
+Print Assumptions C06_realpath_unchanged_by_new_directories.
+
+Theorem C06_mkdir_only_adds_a_directory : forall s cwd p s', os_mkdir s cwd p = SOk s' -> dir_ext s s'.
+Proof. exact os_mkdir_dir_ext. Qed.
+Print Assumptions C06_mkdir_only_adds_a_directory.
+
+(* mkdir -p, started on an extension of the tree s0 on which new_dirs_inside said yes for p: every
+   directory it creates lies at or below d, and the result is again an extension of s0 *)
+Theorem C06_mkdir_p_confined : forall s0 d flt fuel w p w' e,
+  chdir s0 d = Some d -> dir_ext s0 (w_fs w) -> (pp_parts p <> [] -> ndi s0 d p) ->
+  mkdir_p fuel flt w d p = (w', e) ->
+  dir_ext s0 (w_fs w') /\ changes_below d (w_fs w) (w_fs w').
+Proof. exact mkdir_p_confined. Qed.
+Print Assumptions C06_mkdir_p_confined.
+
+(* the rename issued after mkdir -p, judged by the containment test evaluated before it *)
+Theorem C06_confined_step_after_mkdir : forall s0 s f np s' dpar dname,
+  chdir s0 (pf_dir f) = Some (pf_dir f) ->
+  contained fixed s0 f np = Some true ->
+  plain_source s0 f ->
+  dir_ext s0 s ->
+  resolve s (pf_dir f) (to_upath np) false = WMissing dpar dname ->
+  os_rename s (pf_dir f) (to_upath (pf_rel f)) (to_upath np) = SOk s' ->
+  is_prefix_path (pf_dir f) (dpar ++ [dname]) = true /\ changes_below (pf_dir f) s s'.
+Proof. exact confined_step_after_mkdir. Qed.
+Print Assumptions C06_confined_step_after_mkdir.
+
+(* every mode, dry or not: the renamer as first_pass calls it after both containment tests said yes *)
+Theorem C06_confined_renamer_step_all_modes : forall c w f np w' e,
+  c_var c = fixed ->
+  chdir (w_fs w) (pf_dir f) = Some (pf_dir f) ->
+  contained (c_var c) (w_fs w) f np = Some true ->
+  parents_contained (w_fs w) f np = Some true ->
+  plain_source (w_fs w) f ->
+  renamer c w (pf_dir f) (pf_rel f) np false = (w', e) ->
+  changes_below (pf_dir f) (w_fs w) (w_fs w').
+Proof. exact confined_renamer_step_all_modes. Qed.
+Print Assumptions C06_confined_renamer_step_all_modes.
+
+(* one whole step of first_pass on the head of the plan, for every configuration of the current code, every
+   rendered text, tree and fault: the world handed on (to the rest of the plan, or returned with the error)
+   differs from the one before only at or below the input directory of the file being processed *)
+Theorem C06_first_pass_head_confined : forall c f r w cwd bl,
+  c_var c = fixed ->
+  chdir (w_fs w) (pf_dir f) = Some (pf_dir f) ->
+  plain_source (w_fs w) f ->
+  exists w1, changes_below (pf_dir f) (w_fs w) (w_fs w1) /\
+    ((exists bl1, forall rest, first_pass c ((f, r) :: rest) w cwd bl = first_pass c rest w1 (pf_dir f) bl1) \/
+     (exists e, forall rest, first_pass c ((f, r) :: rest) w cwd bl = (w1, pf_dir f, bl, Some e))).
+Proof. exact first_pass_head_confined. Qed.
+Print Assumptions C06_first_pass_head_confined.
+
+(* non-vacuity for path mode: "lnk/new/../n/b" through a symlinked directory; two directories are created *)
+Example C06_confined_move_example :
+  chdir cs_fs (pf_dir cs_file) = Some (pf_dir cs_file) /\
+  contained fixed cs_fs cs_file cm_np = Some true /\
+  parents_contained cs_fs cs_file cm_np = Some true /\
+  plain_path cs_fs (pf_dir cs_file) (pp_parts (pf_rel cs_file)) = true /\
+  (let '(w, e) := renamer cm_cfg (init_world cs_fs []) (pf_dir cs_file) (pf_rel cs_file) cm_np false in
+   (w_fs w, e, rev (w_calls w))) =
+  ([([[105;110]], NDir); ([[105;110]; [115;117;98]; [110]; [98]], NFile 1); ([[105;110]; [115;117;98]], NDir);
+    ([[105;110]; [108;110;107]], NLink 2 {| up_abs := false; up_comps := [[115;117;98]] |});
+    ([[111;117;116]], NDir); ([[105;110]; [115;117;98]; [110;101;119]], NDir); ([[105;110]; [115;117;98]; [110]], NDir)],
+   None,
+   [(CMkdir, CErr); (CMkdir, CErr); (CMkdir, COk); (CMkdir, CErr); (CMkdir, COk); (CMove, COk)]).
+Proof. exact confined_move_applies. Qed.
